@@ -329,6 +329,9 @@ func run(in string) string {
 	if strings.HasPrefix(in, "C17H|") {
 		return runHistory(in)
 	}
+	if strings.HasPrefix(in, "C17Z|") {
+		in = "C17|" + in[5:]
+	}
 	es, salt, err := parse(in)
 	if err != nil {
 		return "BADCASE " + err.Error()
@@ -520,7 +523,32 @@ func usable(k key.Key) string {
 	return ""
 }
 
+// zMarker: the literal clause "different PRF keys give different keys" fails on these inputs
+// (recorded in known_findings.json): PRF keys that differ only by zero-padding of the HKDF
+// salt (absent = HashLen zero bytes; s = s||00 below the block size) derive the same keyset.
+const zMarker = "prf salt zero-padding identity: different PRF keys (salt absent vs HashLen zeros, s vs s||00) derive the same keyset"
+
 func check(in, obs string) string {
+	if strings.HasPrefix(in, "C17Z|") {
+		// dedicated witness case: the ordinary checks first, then the known finding
+		if r := checkOrdinary("C17|"+in[5:], obs); r != "" {
+			return r
+		}
+		// checkOrdinary has just confirmed on the real code that zero-padding every paddable
+		// PRF salt leaves the derived material unchanged; report it when there was one
+		if es, _, err := parse("C17|" + in[5:]); err == nil && !strings.HasPrefix(obs, "new-err") && !strings.HasPrefix(obs, "derive-err") {
+			for _, e := range es {
+				if len(e.prfSalt) < hashOf(e.hash)().BlockSize() {
+					return zMarker
+				}
+			}
+		}
+		return ""
+	}
+	return checkOrdinary(in, obs)
+}
+
+func checkOrdinary(in, obs string) string {
 	if strings.HasPrefix(in, "C17H|") {
 		// each element of a history must equal what a fresh deriver computes for that salt
 		f := strings.Split(in, "|")
@@ -647,6 +675,35 @@ func check(in, obs string) string {
 	for i := range ks {
 		if i < len(ks4) && len(strings.Split(ks4[i], ".")) == 9 && strings.Split(ks[i], ".")[6] == strings.Split(ks4[i], ".")[6] {
 			return "different PRF keys gave the same derived key material"
+		}
+	}
+	// The literal clause "different PRF keys give different keys" stops at the identities of HKDF /
+	// HMAC that C17_prf_key_separation_refuted_nil_salt / _zero_padded_salt state about the model:
+	// an absent PRF salt and HashLen zero bytes, and a PRF salt and the same salt followed by a zero
+	// byte (below the block size), are the same Extract key.  Confirm the witnesses on the real code.
+	es5, _, _ := parse(in)
+	changed := false
+	for _, e := range es5 {
+		h := hashOf(e.hash)()
+		if len(e.prfSalt) == 0 {
+			e.prfSalt = make([]byte, h.Size())
+			changed = true
+		} else if len(e.prfSalt) < h.BlockSize() {
+			e.prfSalt = append(append([]byte(nil), e.prfSalt...), 0)
+			changed = true
+		}
+	}
+	if changed {
+		obs5, _ := deriveObs(es5, salt)
+		ks5 := strings.Split(obs5, ";")
+		if len(ks5) != len(ks) {
+			return "zero-padding the PRF salts changed the shape of the derived keyset"
+		}
+		for i := range ks {
+			a, b := strings.Split(ks[i], "."), strings.Split(ks5[i], ".")
+			if len(b) != 9 || a[6] != b[6] {
+				return "a PRF salt and its zero-padded form (absent = HashLen zeros; s = s||00) derived different key material: the model's HKDF identity does not hold of the code"
+			}
 		}
 	}
 	return ""
